@@ -172,7 +172,23 @@ def check_doc(t: Tally, kidx, shape, via, long_streams=True):
     case0 = {"kinds": list(kidx), "kind_names": [pal()[k].name for k in kidx], "shape": shape, "via": via}
     try:
         with case_alarm(60):
-            defn = load_doc(doc) if via == "xml" else build_objects(doc)
+            if via == "file":
+                # the documented front door: space_packet_parser.load_xml on a file path (str and pathlib.Path alternate)
+                import os
+                import pathlib
+                import space_packet_parser
+                from mc import VERIF_ROOT
+                from mc.spec import render_xml
+                path = os.path.join(VERIF_ROOT, ".work", f"c01_{os.getpid()}.xml")
+                os.makedirs(os.path.dirname(path), exist_ok=True)
+                with open(path, "wb") as f:
+                    f.write(render_xml(doc))
+                try:
+                    defn = space_packet_parser.load_xml(path if sum(kidx) % 2 else pathlib.Path(path))
+                finally:
+                    os.unlink(path)
+            else:
+                defn = load_doc(doc) if via == "xml" else build_objects(doc)
     except BaseException as e:  # noqa: BLE001
         t.violation({"kind": "load-failed", "exc": type(e).__name__, "via": via}, case0, observed=str(e)[:300])
         return
@@ -254,6 +270,41 @@ def _task(task):
     return t
 
 
+def _task_mission(task):
+    """The bundled mission documents, imported into DocSpec by an independent reader, on their recorded packets."""
+    import os
+    from mc import REPO_ROOT
+    from mc.importer import import_doc
+    from mc.observe import compare_outcome, parse_one
+    from space_packet_parser.packets import ccsds_generator
+    from space_packet_parser.xtce.definitions import XtcePacketDefinition
+    t = Tally()
+    path, prefix, root, data, skip = task["item"]
+    try:
+        with case_alarm(3000):
+            doc = import_doc(os.path.join(REPO_ROOT, path), root)
+            defn = XtcePacketDefinition.from_xtce(os.path.join(REPO_ROOT, path), xtce_ns_prefix=prefix, root_container_name=root)
+            with open(os.path.join(REPO_ROOT, data), "rb") as f:
+                for i, p in enumerate(ccsds_generator(f, skip_header_bytes=skip)):
+                    if i >= task["npkts"]:
+                        break
+                    pkt = bytes(p)
+                    want = decode_packet(doc, pkt, root)
+                    with observed_warnings():
+                        obs = parse_one(defn, pkt, root=root if root != "CCSDSPacket" else None)
+                    t.evals += 1
+                    t.outcomes["mission:" + want.kind] += 1
+                    why = compare_outcome(want, obs)
+                    if why:
+                        t.violation({"kind": "mission-decode-mismatch", "document": os.path.basename(path)}, {"mission": path, "packet_index": i, "packet": pkt.hex()[:400]},
+                                    note=why)
+        t.programs += 1
+        t.nontrivial += 1
+    except BaseException as e:  # noqa: BLE001
+        t.notes.append(f"mission document {path} could not be cross-checked ({type(e).__name__}: {str(e)[:80]})")
+    return t
+
+
 def plan(tier):
     P = pal()
     n = len(P)
@@ -282,7 +333,12 @@ def run(ctx):
     docs_ = plan(ctx.tier)
     tasks = [{"docs": ch, "via": "xml", "tier": ctx.tier} for ch in chunked(docs_, 160 if ctx.quick else 400)]
     tasks += [{"docs": ch, "via": "objects", "tier": ctx.tier} for ch in chunked(docs_[::9], 24)]
+    tasks += [{"docs": ch, "via": "file", "tier": ctx.tier} for ch in chunked(docs_[5::23], 24)]
     tally = fan_out(_task, tasks, jobs=ctx.jobs, seed=ctx.seed)
+    from mc.checks.c09 import BUNDLED
+    # the 1.6 MB CTIM document takes ~15 s to load twice: thorough tier only
+    mission = [{"item": b, "npkts": 120 if ctx.quick else 10 ** 9} for b in BUNDLED if b[3] and not (ctx.quick and "ctim" in b[0])]
+    tally.merge(fan_out(_task_mission, mission, jobs=ctx.jobs, mem_gib=None))
     n = len(pal())
     ncore = sum(k.core for k in pal())
     coverage = {
@@ -292,7 +348,8 @@ def run(ctx):
                   + (f" + every ordered triple of the {ncore}-kind core palette" if not ctx.quick else f" + {ncore * ncore} triples (diagonal sample) of the core palette")
                   + "; per document: 8 payload patterns + a walking bit at both ends of each field on the defined APID, 2 patterns on every other APID, "
                     "each as a single-packet stream with and without error reporting, and every stream of 2 (and, " + ("for every 4th document, " if ctx.quick else "") + "3) packets over a 4-packet family; "
-                    "every 9th document also built from objects"),
+                    "every 9th document also built from objects, every 23rd also loaded with space_packet_parser.load_xml from a file; plus the bundled mission documents (4 in the quick tier, 5 in thorough) (imported by an independent XML reader) on their "
+                    + ("first 120 recorded packets" if ctx.quick else "complete recorded packet files (15 990 packets)")),
         "rule": ("one evaluation = one generator run over one stream; distinct non-trivial = documents with >= 2 distinct field kinds for which at "
                  "least one packet decoded completely"),
     }
